@@ -346,6 +346,36 @@ mod proofs {
         assert!(back.data()[i] == if selected { d[i] } else { 0 });
     }
 
+    // @harness id=C14 tier=quick unwind=18 timeout=2400 fs=4096 mem=24
+    // @desc a SEED-COMPRESSED ciphertext in the selected-terms format: the stream carries the selected coefficients of c0 followed by exactly the 8 seed words stored after the flag word of c1 (c1[1..9]), and the announced size equals the bytes written -- so that the reader re-expands c1 from the same seed (the PRNG expansion itself is outside reach)
+    // @bounds BFV N=8, q={97,113}, size 2, coefficient form, c1 = (flag, 8 arbitrary seed words, rest 0); c0 arbitrary canonical residues at the selected term, terms {3}
+    // @funcs Ciphertext::{serialize_terms,serialized_terms_size,contains_seed}
+    // @stubs HeContext::get_context_data -> linear search over the literal chain; alloc::sync::Arc::drop_slow -> no-op
+    #[kani::proof]
+    #[kani::stub(crate::context::HeContext::get_context_data, crate::context::verif_v::get_context_data_stub)]
+    #[kani::stub(alloc::sync::Arc::drop_slow, crate::verif_v::arc_drop_slow_noop)]
+    fn c14_seeded_terms_stream() {
+        let ctx = lits::ctx_bfv_n8_2p1();
+        let pid = *ctx.first_parms_id();
+        let seed: [u64; 8] = kani::any();
+        let x: [u8; 2] = kani::any(); kani::assume(x[0] < 97 && x[1] < 113);
+        let mut d = vec![0u64; 32];
+        d[3] = x[0] as u64; d[8 + 3] = x[1] as u64;
+        d[16] = crate::text::CIPHERTEXT_SEED_FLAG;
+        let mut i = 0; while i < 8 { d[17 + i] = seed[i]; i += 1; }
+        let ct = mk_ciphertext(2, 2, 8, d, pid, 1.0, false, 1);
+        let mut s = Sink::new();
+        let n = ct.serialize_terms(&ctx, &[3], &mut s).unwrap();
+        assert!(n == ct.serialized_terms_size(&ctx, 1) && s.len == n && n == 32 + 8 + 1 + 1 + 2 + 64);
+        assert!(s.buf[41] == 1);                                    // seed marker byte
+        assert!(s.buf[42] == x[0] && s.buf[43] == x[1]);
+        let k: usize = kani::any(); kani::assume(k < 8);
+        let mut w = 0u64; let mut b = 0; while b < 8 { w |= (s.buf[44 + 8 * k + b] as u64) << (8 * b); b += 1; }
+        kani::cover!(seed[0] != seed[7]);
+        assert!(w == seed[k]);
+        std::mem::forget(ctx);
+    }
+
     // @harness id=C14 tier=quick unwind=16 timeout=1200 fs=4096
     // @desc ciphertext containers (1-d, 2-d, 3-d) that are EMPTY or hold empty sub-containers: in the compact and the selected-terms format the announced size equals the bytes written and the bytes consumed, the restored container has the same shape, and a following object in the same stream is recovered independently
     // @bounds Cipher1d [], Cipher2d [] and [[],[]], Cipher3d [] and [[[]]] ; tail object = arbitrary u64; term list {0}
@@ -422,7 +452,7 @@ mod proofs {
 
     // @harness id=C15 tier=quick unwind=24 timeout=3000 fs=4096 mem=24
     // @desc serializing a ciphertext (compact format) to a writer that accepts 1..8 bytes per call and may FAIL at any call either returns Err or leaves the complete encoding in the sink -- an Ok result is never reported for a sink that did not receive every byte
-    // @bounds BFV N=2, q={97}, size 2 (46-byte encoding); per-call limit 3 or 8 (concrete per case); failure at any call index (or never); all canonical residues
+    // @bounds BFV N=2, q={97}, size 2 (46-byte encoding); per-call limit 3 and 8; failure at every call index 0..22 resp. 0..11 and never (each a concrete run); all canonical residues
     // @funcs <Ciphertext as SerializableWithHeContext>::serialize and every scalar writer below it
     // @stubs HeContext::get_context_data -> linear search over the literal chain; alloc::sync::Arc::drop_slow -> no-op
     #[kani::proof]
@@ -430,24 +460,30 @@ mod proofs {
     #[kani::stub(alloc::sync::Arc::drop_slow, crate::verif_v::arc_drop_slow_noop)]
     fn c15_ciphertext_faulty_writer() {
         let ctx = lits::ctx_bfv_n2_1p();
-        let c: bool = kani::any();
-        if c { faulty_case(&ctx, 3) } else { faulty_case(&ctx, 8) }
+        let r: [u8; 4] = kani::any(); kani::assume(r[0] < 97 && r[1] < 97 && r[2] < 97 && r[3] < 97);
+        // the failing call index is enumerated (concrete per run: a symbolic index forks an error exit with io::Error drop glue at every call)
+        let mut f = 0;
+        while f <= 22 { faulty_case(&ctx, r, 3, f); f += 1; }            // limit 3: 22 calls in total
+        let mut f = 0;
+        while f <= 11 { faulty_case(&ctx, r, 8, f); f += 1; }            // limit 8: 11 calls in total
+        faulty_case(&ctx, r, 3, usize::MAX); faulty_case(&ctx, r, 8, usize::MAX);
         std::mem::forget(ctx);
     }
-    fn faulty_case(ctx: &std::sync::Arc<HeContext>, limit: usize) {
+    fn faulty_case(ctx: &std::sync::Arc<HeContext>, r: [u8; 4], limit: usize, fail_at: usize) {
         let pid = *ctx.first_parms_id();
-        let r: [u8; 4] = kani::any(); kani::assume(r[0] < 97 && r[1] < 97 && r[2] < 97 && r[3] < 97);
         let ct = mk_ciphertext(2, 1, 2, vec![r[0] as u64, r[1] as u64, 42 /* seed-flag slot concrete */, r[3] as u64], pid, 1.0, false, 1);
-        let fail_at: usize = kani::any();
         let mut w = ShortWriter { buf: [0; 128], len: 0, calls: 0, limit, fail_at };
         let res = ct.serialize(ctx, &mut w);
         let full = ct.serialized_size(ctx);
-        kani::cover!(res.is_err());
-        kani::cover!(res.is_ok());
+        if fail_at == 5 { kani::cover!(res.is_err()); }
+        if fail_at == usize::MAX { kani::cover!(res.is_ok()); }
         if res.is_ok() {
             assert!(w.len == full && full == 32 + 8 + 1 + 1 + 4);
             assert!(w.buf[42] == r[0] && w.buf[45] == r[3]);
+        } else {
+            assert!(fail_at != usize::MAX);                                  // a writer that never fails never yields Err
         }
+        std::mem::forget(res);
     }
 
     #[cfg(test)] include!("/verif/.build/playback/serialize_v.rs");
